@@ -167,7 +167,9 @@ theorem grammar_noflags {σ : Schema} {ts ts' : List Token} (h : grammar ts = .o
   unfold grammar at h
   split at h
   · cases h
-  · exact parseDefs_noflags _ _ _ _ _ ⟨by simp, by simp⟩ h
+  · split at h
+    · cases h; exact ⟨by simp, by simp⟩
+    · exact parseDefs_noflags _ _ _ _ _ ⟨by simp, by simp⟩ h
 
 theorem resolveFType_noflag {σ : Schema} {ty ty' : FType} (h : resolveFType σ ty = .ok ty')
     (hn : ty.NoFlag) : ty'.NoFlag := by
